@@ -3,15 +3,24 @@ manifest texts)."""
 
 PROPS = {
     "C01": {
-        "quick_runs": 600, "quick_budget": 60, "thorough_budget": 900, "batch": 20,
+        "quick_runs": 600, "quick_budget": 60, "thorough_budget": 900, "batch": 1,
         "dense": r"^(window/tumbling_window|window/watermark|stream/processor_data)\.go$", "dense_share": 0.3,
         "needs_fault": False,
         "probes": ["late_row", "late_row_kept", "on_time_row_before_first_window", "three_or_more_windows"],
         "technique": "seeded schedule search over ingest / watermark / trigger / consumer goroutines on a fake clock; tumbling assigner + watermark ledger as reference model",
         "level_text": "Seeded search over window sizes (1ms-1h, ms and s units), MAXOUTOFORDERNESS (0, <size, =size, >size), key tuples, timestamp sequences (in order, jittered within tolerance, duplicates, boundary and boundary-1, on-time rows earlier than the first arrival's window, long gaps, late rows) and interleavings / starvation / stalls of the ingest, watermark-ticker, trigger and consumer goroutines; processing-time mode on the fake clock with stalls that lose ticks. Every delivered result is checked against the reference assigner (interval, group, exactly-once, aggregates, window_id) and every on-time row must be delivered once its window's end is behind the final watermark.",
     },
+    "C02": {
+        "quick_runs": 1500, "quick_budget": 90, "thorough_budget": 900, "batch": 1,
+        "dense": r"^(window/tumbling_window|window/sliding_window|window/session_window|window/watermark)\.go$", "dense_share": 0.3,
+        "needs_fault": True,
+        "probes": ["late_row", "late_row_kept", "late_row_after_allowance", "late_row_into_fired_window", "late_update_redelivery", "idle_advance_fired", "garbage_timestamp_rows"],
+        "technique": "seeded schedule search with trigger-goroutine starvation, stalls and garbage timestamps; watermark ledger computed from emit order as reference model",
+        "level_text": "Seeded search over tumbling/sliding/session event-time queries, MAXOUTOFORDERNESS and ALLOWEDLATENESS settings (0, <size, >=size), IDLETIMEOUT, arrival orders with late and very late rows, bursts with the trigger goroutine starved, stalls, and garbage timestamps (missing, NULL, non-numeric, >= 30 days in the future). A ledger computed from the emit order gives the watermark after every row; checked: no first delivery before some emitted row has ts >= end+OOO (or an ingestion gap >= IDLETIMEOUT was observed), every on-time row is delivered, late rows inside the allowance of an already delivered window cause a re-delivery that is a superset, late rows beyond the allowance of all their windows change nothing, garbage rows appear nowhere.",
+        "level_note": "Interpretation (DESIGN.md §3 C02 d): 'older than watermark - ALLOWEDLATENESS' is read per window (end <= watermark - AL). Ingestion instants for the idle-timeout clause are observed through the scheduler's grants of Watermark.UpdateEventTime / IsEventTimeLate lock sites (no hook in /repo). Trusted: synctest clock, instrumentation pass, ledger model.",
+    },
     "C08": {
-        "quick_runs": 600, "quick_budget": 60, "thorough_budget": 900, "batch": 20,
+        "quick_runs": 600, "quick_budget": 60, "thorough_budget": 900, "batch": 1,
         "dense": r"^(window/sliding_window|window/watermark|stream/processor_data)\.go$", "dense_share": 0.3,
         "needs_fault": False,
         "probes": ["late_row", "on_time_row_before_first_window", "three_or_more_windows"],
@@ -19,7 +28,7 @@ PROPS = {
         "level_text": "As C01 with SlidingWindow(size, slide): slide dividing size or not, slide = size, slide > size (gaps), size = k*slide up to 6. Every delivered interval must be slide-aligned, size long, not earlier than the slide-aligned start of the earliest accepted event, delivered once and in increasing order, contain every on-time row it covers and nothing else; every covering interval behind the final watermark must be delivered (premature eviction shows as a missing row).",
     },
     "C09": {
-        "quick_runs": 500, "quick_budget": 60, "thorough_budget": 900, "batch": 20,
+        "quick_runs": 500, "quick_budget": 60, "thorough_budget": 900, "batch": 1,
         "dense": r"^(window/counting_window|stream/processor_data|stream/handler_result)\.go$", "dense_share": 0.3,
         "needs_fault": False,
         "probes": ["trailing_remainder", "exact_multiple", "multi_key"],
@@ -27,7 +36,7 @@ PROPS = {
         "level_text": "Seeded search over N, key tuples (incl. separator-laden and NULL keys), interleavings of keys, stream lengths N*k and N*k±1, tiny trigger/output buffers under back-pressure, slow consumers, and interleavings of the ingest goroutine, the counting-window goroutine and the consumer; every delivered result is compared with the reference 'rows (i-1)N+1..iN of that key', plus completeness at quiescence and aggregate consistency.",
     },
     "C19": {
-        "quick_runs": 600, "quick_budget": 60, "thorough_budget": 900, "batch": 20,
+        "quick_runs": 600, "quick_budget": 60, "thorough_budget": 900, "batch": 1,
         "dense": r"^stream/(handler_data|strategy|processor_data|stream)\.go$", "dense_share": 0.3,
         "needs_fault": False,
         "probes": ["expanded", "expansion_migrated_rows", "ceiling_reached", "input_dropped"],
